@@ -74,6 +74,21 @@ func witnesses() []witnessCase {
 			}},
 		},
 		{
+			// restore brings staged deletions back: a limited scan has to look past them again
+			Name:   "limited-scan-after-restore-of-staged-deletions",
+			Expect: "",
+			Prog: &program{RootPrefix: b("s"), Init: []kvp{{K: b("sa"), V: b("1")}, {K: b("sb"), V: b("2")}, {K: b("sc"), V: b("3")}, {K: b("sd"), V: b("4")}}, Ops: []op{
+				{K: "del", Key: b("a")},
+				{K: "del", Key: b("b")},
+				{K: "snapshot"},
+				{K: "set", Key: b("a"), Val: b("x")},
+				{K: "set", Key: b("b"), Val: b("y")},
+				{K: "restore", Quiet: true},
+				{K: "range", Start: hx{}, End: hx{0xff}, Limit: 1},
+				{K: "iterate", Key: hx{}, Limit: 2},
+			}},
+		},
+		{
 			// item 13: RestoreSnapshot replaces the overlay pointer of one view only
 			Name:   "restore-not-seen-by-view-created-before",
 			Expect: "RestoreSnapshot:view-created-before-restore:state-differs-from-snapshot",
